@@ -39,6 +39,8 @@ func ruleH1(c *Ctx) {
 		top := outermost(s.fn)
 		if top.Signature.Recv() != nil && qualType(top.Signature.Recv().Type()) == "starlark.hashtable" {
 			c.ok(key, pos, "method of *hashtable")
+		} else if htImplHelper(c.P, top, 0) {
+			c.ok(key, pos, "private helper of the hashtable's methods (takes the table or an entry, called only from them)")
 		} else if top.Signature.Recv() != nil && qualType(top.Signature.Recv().Type()) == "starlark.keyIterator" && s.field.Name() == "itercount" {
 			c.ok(key, pos, "iterator releasing its own lock")
 		} else {
@@ -57,6 +59,9 @@ func ruleH1(c *Ctx) {
 			if q == "starlark.hashtable" || q == "starlark.keyIterator" {
 				continue
 			}
+		}
+		if htImplHelper(c.P, top, 0) {
+			continue
 		}
 		seen := map[string]bool{}
 		eachInstr(fn, func(in ssa.Instruction) {
@@ -192,6 +197,14 @@ func htStores1(fn *ssa.Function, at *ssa.BasicBlock, depth int) []htStore {
 	var out []htStore
 	eachInstr(fn, func(in ssa.Instruction) {
 		if call, ok := in.(*ssa.Call); ok && depth < 2 {
+			if cal := call.Call.StaticCallee(); cal != nil && cal.Blocks != nil && cal.Signature.Recv() == nil && curProg != nil && htImplHelper(curProg, cal, 0) {
+				// a private helper written as a function (appendToOrder(ht, e))
+				blk := call.Block()
+				if at != nil {
+					blk = at
+				}
+				out = append(out, htStores1(cal, blk, depth+1)...)
+			}
 			if cal := call.Call.StaticCallee(); cal != nil && cal.Blocks != nil && cal.Signature.Recv() != nil && qualType(cal.Signature.Recv().Type()) == "starlark.hashtable" {
 				switch cal.Name() {
 				case "insert", "delete", "clear", "grow", "init", "lookup", "checkMutable", "count":
@@ -1014,4 +1027,52 @@ func derivesFromLen(v ssa.Value) bool {
 		}
 	}
 	return false
+}
+
+// htImplHelper: fn is an unexported package-level function that is given the table or one of its entries
+// or buckets and is called (statically, never used as a value) only from methods of *hashtable or from
+// other such helpers - part of the hashtable's implementation that happens not to be written as a method.
+func htImplHelper(p *Prog, fn *ssa.Function, depth int) bool {
+	if depth > 2 || fn.Signature.Recv() != nil || fn.Object() == nil || fn.Object().Exported() || fn.Parent() != nil {
+		return false
+	}
+	takes := false
+	for _, prm := range fn.Params {
+		if htTypes[qualType(prm.Type())] {
+			takes = true
+		}
+	}
+	if !takes {
+		return false
+	}
+	callers := 0
+	ok := true
+	for _, g := range p.Funcs {
+		eachInstr(g, func(in ssa.Instruction) {
+			for _, op := range in.Operands(nil) {
+				if *op == ssa.Value(fn) {
+					ci, isCall := in.(ssa.CallInstruction)
+					if !isCall || ci.Common().Value != ssa.Value(fn) {
+						ok = false // used as a value
+					}
+				}
+			}
+			ci, isCall := in.(ssa.CallInstruction)
+			if !isCall || ci.Common().StaticCallee() != fn {
+				return
+			}
+			callers++
+			top := outermost(g)
+			if top == fn {
+				return
+			}
+			if top.Signature.Recv() != nil && qualType(top.Signature.Recv().Type()) == "starlark.hashtable" {
+				return
+			}
+			if !htImplHelper(p, top, depth+1) {
+				ok = false
+			}
+		})
+	}
+	return ok && callers > 0
 }
